@@ -1027,6 +1027,16 @@ def gen_coap_overlap(tier, r):
                 calls = [dict(path=p, ids=OV_IDS[i], vec=[DUP_KINDS[(n + j + 2 * ci) % 5] if (n + ci) % 3 else "okN" for j in range(len(OV_IDS[i]))],
                               posbase=16 * ci) for ci, (p, i) in enumerate(zip(paths, (ia, ib)))]
                 cases.append(dict(calls=calls, schedule=sch, stream="overlap2"))
+    # the caller mutates the list it passed while the call is suspended: the result must be that of the argument at call time
+    for path in OV_PATHS:
+        for mut in ("replace", "reverse", "remove", "append", "insert", "clear"):
+            for ii in (0, 2, 3):
+                n += 1
+                mk = lambda ci, p, i, m: dict(path=p, ids=OV_IDS[i], mutate=m, posbase=16 * ci,
+                                              vec=[DUP_KINDS[(n + j + ci) % 5] if (n + ci) % 2 else "okN" for j in range(len(OV_IDS[i]))])
+                cases.append(dict(calls=[mk(0, path, ii, mut)], schedule=[("S", 0), ("R", 0)], stream="overlap-mutate"))
+                for sch in sch2[:3]:
+                    cases.append(dict(calls=[mk(0, path, ii, mut), mk(1, OV_PATHS[n % 4], (ii + 1) % 4, None)], schedule=sch, stream="overlap-mutate"))
     combos3 = [("read", "read", "read"), ("read", "write", "sub"), ("write", "read", "unsub"), ("sub", "unsub", "read"),
                ("write", "write", "read"), ("read", "sub", "read")]
     for ci3, paths in enumerate(combos3):
@@ -1083,16 +1093,39 @@ async def impl_coap_overlap(case):
     conn.info = Info()
     tasks = {}
 
+    args = {}
+
     async def run_call(ci):
         c = calls[ci]
         ids = [tuple(k) for k in c["ids"]]
+        if c["path"] == "write":
+            args[ci] = [(a, i, dup_write_value(c["posbase"] + p, i)) for p, (a, i) in enumerate(ids)]
+            return await conn.write_characteristics(args[ci])
+        args[ci] = list(ids)                               # the caller keeps a reference to the list it passed
         if c["path"] == "read":
-            return await conn.read_characteristics(list(ids))
+            return await conn.read_characteristics(args[ci])
         if c["path"] == "sub":
-            return await conn.subscribe_to(list(ids))
-        if c["path"] == "unsub":
-            return await conn.unsubscribe_from(list(ids))
-        return await conn.write_characteristics([(a, i, dup_write_value(c["posbase"] + p, i)) for p, (a, i) in enumerate(ids)])
+            return await conn.subscribe_to(args[ci])
+        return await conn.unsubscribe_from(args[ci])
+
+    def mutate(ci):
+        """The caller changes ITS list while the call is suspended in the exchange (another task reusing / updating a poll list)."""
+        kind, a = calls[ci].get("mutate"), args.get(ci)
+        if not kind or a is None:
+            return
+        extra = (9, 999) if calls[ci]["path"] != "write" else (9, 999, b"\x00")
+        if kind == "replace":
+            a[0] = extra
+        elif kind == "reverse":
+            a.reverse()
+        elif kind == "remove":
+            del a[0]
+        elif kind == "append":
+            a.append(extra)
+        elif kind == "insert":
+            a.insert(0, extra)
+        elif kind == "clear":
+            a.clear()
 
     for ev, ci in case["schedule"]:
         if ev == "S":
@@ -1104,6 +1137,7 @@ async def impl_coap_overlap(case):
                     break
                 await asyncio.sleep(0)
         else:
+            mutate(ci)
             if ci in gates and not gates[ci].done():
                 gates[ci].set_result(None)
             for _ in range(50):
@@ -1857,12 +1891,16 @@ def _run(ctx, tier, seed):
     for oi, (c, outs_) in enumerate(zip(ov_cases, ovouts)):
         with case_guard("coap-overlap", c):
             sched = " ".join(f"{e}{i}" for e, i in c["schedule"])
-            desc = dict(stream=c["stream"], schedule=sched, calls=[dict(path=x["path"], ids=x["ids"], per_position_outcomes=x["vec"]) for x in c["calls"]],
+            desc = dict(stream=c["stream"], schedule=sched,
+                        calls=[dict(path=x["path"], ids=x["ids"], per_position_outcomes=x["vec"], caller_mutates_its_list_before_response=x.get("mutate")) for x in c["calls"]],
                         note="S_i starts call i (runs until its post_bytes is in flight), R_i delivers call i's own response")
             for ci, (call, o) in enumerate(zip(c["calls"], outs_)):
                 k = ooff[oi] + ci
                 orc = oracle_coap_dup(dict(ids=call["ids"], vec=call["vec"], posbase=call["posbase"], known_read=[]), o)
                 for slug, text in orc:
+                    if call.get("mutate"):
+                        slug = f"coap-overlap:{call['path']}-argument-mutated-in-flight"
+                        text = f"caller does '{call['mutate']}' on the list it passed while the exchange is in flight; " + text
                     add_v(slug.replace("coap-ids:", "coap-overlap:"), f"call {ci} of overlapping calls [{sched}]: " + text, True, case=desc,
                           impl=[list(x.values())[0]["result"][:300] for x in outs_])
                 res = list(o.values())[0]["result"]
@@ -1874,6 +1912,7 @@ def _run(ctx, tier, seed):
             cov.case(f"o{oi}", True,
                      sample=dict(stream="coap:" + c["stream"], schedule=sched, calls=[(x["path"], x["ids"]) for x in c["calls"]],
                                  results=[list(x.values())[0]["result"][:60] for x in outs_]) if oi % 211 == 3 else None,
+                     ov_mutation="+".join(x.get("mutate") or "-" for x in c["calls"]), ov_stream=c["stream"],
                      ov_calls=len(c["calls"]), ov_paths="+".join(x["path"] for x in c["calls"]),
                      ov_overlap="nested" if c["schedule"][1][0] == "S" else "sequential-start")
 
